@@ -48,7 +48,7 @@ def plan(tier, seed):
 
 def mandatory(tier):
     out = [f"mode/{m}" for m in ("linear", "nearest")] + [f"padding/{p}" for p in PADDINGS]
-    out += ["api/Image.sample(grid)", "api/ImageBatch.sample(grids)", "api/sample(coords)", "api/identity", "api/SampleImage", "api/AlignImage", "api/TransformImage", "inside_samples", "outside_constant_samples"]
+    out += ["api/Image.sample(grid)", "api/ImageBatch.sample(grids)", "api/ImageBatch.sample(grid of first image)", "api/sample(coords)", "api/identity", "api/SampleImage", "api/AlignImage", "api/TransformImage", "inside_samples", "outside_constant_samples"]
     return out
 
 
@@ -271,6 +271,14 @@ def run_item(ctx, item):
                 ctx.true("batch_item_grid_is_target", out.grids()[j] == gen.make_grid(tps[j]), item=j)
                 compare(ctx, "ImageBatch.sample", out.tensor()[j].numpy(), gen.ref_grid(sps[j]), gen.ref_grid(tps[j]), itk, datas[j], mode, padding, dict(item=j, per_image_sources=bool(i % 2), per_image_targets=per_image_targets))
         ctx.nontriv(sps, tps)
+        # one target grid equal to the grid of the first image only: the other images still have to be resampled
+        ctx.bucket("api/ImageBatch.sample(grid of first image)")
+        out = batch.sample(batch.grid(0), mode=mode, padding=padding)
+        ok = ctx.true("batch_sample_first_grid_shape", isinstance(out, ImageBatch) and out.shape[0] == N and len(out.grids()) == N and all(g == batch.grid(0) for g in out.grids()), key="ImageBatch.sample/first_grid/shape", got=list(out.shape))
+        if ok:
+            for j in range(N):
+                itk = itk_resample(simgs[j], sps[0], mode, default)
+                compare(ctx, "ImageBatch.sample(first image's grid)", out.tensor()[j].numpy(), gen.ref_grid(sps[j]), gen.ref_grid(sps[0]), itk, datas[j], mode, padding, dict(item=j, N=N, per_image_sources=bool(i % 2)))
     # (d) sampling an image on its own grid returns it unchanged
     with ctx.guard("identity"):
         ctx.bucket("api/identity")
